@@ -21,7 +21,8 @@ RULE = (
     "matter). Also: non-token text and single brackets at EVERY offset (outside the quoted file name) of every line directive of fixed "
     "cpp-style programs and of generated programs laid out with linemarkers of 8 forms; characters no C token contains (digits and "
     "letters of other scripts, control characters, no-break blanks) glued to the front, the inside and the end of every non-literal "
-    "token. (e) coverage-guided campaigns (atheris/libFuzzer, token sequences over a 150-entry vocabulary): an input containing "
+    "token; single-bracket mutants of the second of two identical copies of a program placed behind the same linemarker (every token "
+    "shares file, line and column with its twin). (e) coverage-guided campaigns (atheris/libFuzzer, token sequences over a 150-entry vocabulary): an input containing "
     "a token no C program contains or brackets that do not nest must be rejected; the committed corpus of earlier campaigns is replayed. "
     "Non-trivial: mutants whose first imbalance or injection lies after >= 10 valid tokens; distinct by construction "
     "per program."
@@ -73,7 +74,7 @@ def text_of(strs):
 
 def must_reject(strs, what, case, st):
     src = text_of(strs)
-    out = parse_outcome(src, "f.c", ("f.c",))
+    out = parse_outcome(src, "f.c", ("f.c", "tab.h"))
     st.evaluations += 1
     if out[0] == "ast":
         fail("accepted", case, src, "malformed input accepted (%s)" % what, "accepted:" + what.split(" ")[0])
@@ -247,6 +248,42 @@ def glue_shard(arg):
     return st
 
 
+def twin_shard(arg):
+    """The same program twice, each copy behind the SAME linemarker: every token
+    of the second copy has the file, line and column of its twin in the first.
+    Single-bracket mutants of the second copy must be rejected like any other
+    (nothing keyed by source position may stand in for reading the tokens)."""
+    seed, n = arg
+    st = Stats()
+
+    def body(c):
+        g = gen.G(c, quarantine=QUARANTINE, max_nodes=60)
+        tu = M.freshen(gen.gen_unit(g, 1))
+        r = M.Renderer("min")
+        r.unit(tu)
+        one = gen.PRELUDE.split() + [("\n" + t.s) if t.line else t.s for t in r.toks]
+        marker = c.choice(['\n# 1 "tab.h"\n', "\n#line 1\n", '\n# 7 "f.c" 1\n'])
+        strs = [marker] + one + [marker] + one
+        base = text_of(strs)
+        if parse_outcome(base, "f.c", ("f.c", "tab.h"))[0] != "ast":
+            st.classes["base_not_accepted"] += 1
+            return
+        st.classes["twin_base_programs"] += 1
+        first = len(one) + 2
+        for i in range(first, len(strs)):
+            v = strs[i]
+            if len(v) == 1 and v in BR:
+                for o in BR:
+                    if o != v:
+                        m = strs[:i] + [o] + strs[i + 1 :]
+                        must_reject(m, "swap %s->%s in the second copy" % (v, o), ("twin", m), st)
+                        st.nontrivial += 1
+                must_reject(strs[:i] + strs[i + 1 :], "delete in the second copy", ("twin", strs[:i] + strs[i + 1 :]), st)
+
+    hyp_search(body, seed, n, st)
+    return st
+
+
 def random_shard(arg):
     seed, n, all_boundaries = arg
     st = Stats()
@@ -403,6 +440,7 @@ def run(ctx):
     ctx.map(corpus_shard, progs)
     ctx.map(directive_shard, [(s, ctx.pick(6, 150)) for s in ctx.shard_seeds(16, 11)])
     ctx.map(glue_shard, [(s, ctx.pick(6, 150)) for s in ctx.shard_seeds(16, 12)])
+    ctx.map(twin_shard, [(s, ctx.pick(10, 200)) for s in ctx.shard_seeds(16, 13)])
     import json
     import os
 
